@@ -18,8 +18,8 @@ INC_seq = -I$(B)/gen/seq -I$(REPO)/include
 INC_par = -Isim/include -I$(B)/gen/par -I$(REPO)/include
 
 LIBS_seq = -lboost_timer
-LIBS_par = -lboost_timer -lboost_serialization -lpthread
-LIBS_demo = -lboost_timer -lboost_serialization -lboost_program_options -lboost_thread -lboost_system -lpthread
+LIBS_par = -lboost_timer -lboost_serialization -lpthread -Wl,--wrap=pthread_mutex_lock
+LIBS_demo = -lboost_timer -lboost_serialization -lboost_program_options -lboost_thread -lboost_system -lpthread -Wl,--wrap=pthread_mutex_lock
 
 ENGINES_seq =
 ENGINES_par = e_seq e_comp e_tbb e_mpi
